@@ -269,3 +269,77 @@ def gen_blocks(rng, n):
                 cases.append((f"{fn}({fd},{list(w)},{list(grad)},{list(ws)})",
                               f"{fn} {fields_of(sig, fn, fd)} {vq(w)} {vq(grad)} {vz(ws)}", "chk_VE", xvec(r)))
     return cases
+
+
+# ------------------------------------------------------------------ datafits (single task)
+def csc_of(X):
+    from scipy import sparse
+    Xs = sparse.csc_matrix(X)
+    return Xs.data.astype(float), Xs.indptr.astype(np.int64), Xs.indices.astype(np.int64)
+
+
+def gen_datafits(rng, n, transcendental=False):
+    import skglm.datafits.single_task as st
+    pf, sep, cc = _imp()
+    sig = gen_sig()
+    cases = []
+    small = [-2.0, -1.0, -0.5, 0.0, 0.0, 0.5, 1.0, 1.5, 2.0]
+    for _ in range(max(1, n // 25)):
+        ns, p = rng.randint(1, 4), rng.randint(1, 3)
+        X = np.array([[rng.choice(small) for _ in range(p)] for _ in range(ns)])
+        if rng.random() < 0.3:
+            X[:, rng.randrange(p)] = 0.0
+        y = np.array([rng.choice([-1.0, 1.0, 0.5, 2.0, 3.0]) for _ in range(ns)])
+        w = np.array([rng.choice(small) for _ in range(p)])
+        Xw = np.array([rng.choice(small) for _ in range(ns)])     # arbitrary point (consistency is not assumed)
+        sw = np.array([rng.choice([0.5, 1.0, 2.0]) for _ in range(ns)])
+        delta = rng.choice([0.5, 1.0, 2.0])
+        data, indptr, indices = csc_of(X)
+        insts = [("Quadratic", st.Quadratic(), {}, False), ("WeightedQuadratic", st.WeightedQuadratic(sw), dict(sample_weights=vq(sw)), False),
+                 ("Huber", st.Huber(delta), dict(delta=q(delta)), False), ("QuadraticSVC", st.QuadraticSVC(), {}, False),
+                 ("Logistic", st.Logistic(), {}, True), ("Poisson", st.Poisson(), {}, True), ("Gamma", st.Gamma(), {}, True)]
+        for cname, inst, fd, trans in insts:
+            if trans != transcendental:
+                continue
+            yy = y if cname not in ("Logistic",) else np.sign(y)
+            if cname in ("Poisson", "Gamma"):
+                yy = np.abs(y)
+            obj = cc(inst)
+            fdd = dict(fd)
+            # cached attributes set by initialize
+            if cname == "Quadratic":
+                obj.initialize(X, yy)
+                fdd["Xty"] = vq(obj.Xty)
+                r = obj.Xty
+                cases.append((f"Quadratic_initialize({X.tolist()},{list(yy)})", f"Quadratic_initialize {mat(X)} {vq(yy)}", "chk_VF", xvec(r)))
+                obj2 = cc(st.Quadratic())
+                obj2.initialize_sparse(data, indptr, indices, yy)
+                cases.append((f"Quadratic_initialize_sparse({X.tolist()},{list(yy)})",
+                              f"Quadratic_initialize_sparse {vq(data)} {vz(indptr)} {vz(indices)} {vq(yy)}", "chk_VF", xvec(obj2.Xty)))
+            if cname == "WeightedQuadratic":
+                obj.initialize(X, yy)
+                fdd["Xtwy"] = vq(obj.Xtwy)
+                cases.append((f"WeightedQuadratic_initialize({X.tolist()},{list(yy)},{list(sw)})",
+                              f"WeightedQuadratic_initialize {fd['sample_weights']} {mat(X)} {vq(yy)}", "chk_VF", xvec(obj.Xtwy)))
+
+            def add(meth, args_py, args_coq, chk, conv):
+                fn = f"{cname}_{meth}"
+                if fn not in sig or not hasattr(obj, meth):
+                    return
+                r = call_impl(getattr(obj, meth), *args_py)
+                cases.append((f"{fn}({fdd},{[a.tolist() if hasattr(a, 'tolist') else a for a in args_py]})",
+                              f"{fn} {fields_of(sig, fn, fdd)} {args_coq}", chk, conv(r)))
+            add("value", (yy, w, Xw), f"{vq(yy)} {vq(w)} {vq(Xw)}", "chk_F", xq)
+            add("raw_grad", (yy, Xw), f"{vq(yy)} {vq(Xw)}", "chk_VF", xvec)
+            add("raw_hessian", (yy, Xw), f"{vq(yy)} {vq(Xw)}", "chk_VF", xvec)
+            add("get_lipschitz", (X, yy), f"{mat(X)} {vq(yy)}", "chk_VF", xvec)
+            add("get_lipschitz_sparse", (data, indptr, indices, yy), f"{vq(data)} {vz(indptr)} {vz(indices)} {vq(yy)}", "chk_VF", xvec)
+            add("gradient", (X, yy, Xw), f"{mat(X)} {vq(yy)} {vq(Xw)}", "chk_VF", xvec)
+            add("full_grad_sparse", (data, indptr, indices, yy, Xw), f"{vq(data)} {vz(indptr)} {vz(indices)} {vq(yy)} {vq(Xw)}", "chk_VF", xvec)
+            add("gradient_sparse", (data, indptr, indices, yy, Xw), f"{vq(data)} {vz(indptr)} {vz(indices)} {vq(yy)} {vq(Xw)}", "chk_VF", xvec)
+            add("intercept_update_step", (yy, Xw), f"{vq(yy)} {vq(Xw)}", "chk_F", xq)
+            for j in range(p):
+                add("gradient_scalar", (X, yy, w, Xw, j), f"{mat(X)} {vq(yy)} {vq(w)} {vq(Xw)} {z(j)}", "chk_F", xq)
+                add("gradient_scalar_sparse", (data, indptr, indices, yy, Xw, j),
+                    f"{vq(data)} {vz(indptr)} {vz(indices)} {vq(yy)} {vq(Xw)} {z(j)}", "chk_F", xq)
+    return cases
